@@ -68,12 +68,12 @@ def gen_sites(tier, rng):
             out.append({"k": "flags", "flags": list(t)})
     # messages built from sets
     for n in range(1, 7):
-        for _ in range(6 if not big else 60):
+        for _ in range(6 if not big else 30):
             conds = rng.sample(IDENT, n)
             refs = rng.sample(conds, rng.randint(1, n))
             out.append({"k": "unref", "conds": conds, "refs": refs, "expr": " and ".join(refs)})
     for n in range(0, 7):
-        for _ in range(5 if not big else 50):
+        for _ in range(5 if not big else 30):
             out.append({"k": "corr", "keys": [rng.choice(["gte", "lt", "eq"])] + rng.sample(POOL, n)})
     # field mappings + strict check; exhaustive small part: one detection, fields over {a,b,c}, one mapping
     small_t = [["x"], ["x", "y"], ["a"], ["b", "a"]]
@@ -83,7 +83,7 @@ def gen_sites(tier, rng):
                 m = {"a": ta}
                 if tb: m["b"] = tb
                 out.append({"k": "strict", "dets": [list(fs)], "maps": [m], "nested": False, "single_as_str": False})
-    for _ in range(110 if not big else 4000):
+    for _ in range(90 if not big else 1500):
         pool = rng.sample(POOL, rng.randint(3, 8))
         dets = [[rng.choice(pool) for _ in range(rng.randint(1, 4))] for _ in range(rng.randint(1, 3))]
         maps = []
@@ -97,7 +97,7 @@ def gen_sites(tier, rng):
         out.append({"k": "strict", "dets": dets, "maps": maps, "nested": rng.random() < 0.4,
                     "single_as_str": rng.random() < 0.5})
     # tracking operations
-    for _ in range(70 if not big else 3000):
+    for _ in range(60 if not big else 1000):
         pool = rng.sample(POOL, rng.randint(2, 6))
         ops = []
         for _ in range(rng.randint(1, 7)):
@@ -107,7 +107,7 @@ def gen_sites(tier, rng):
                 ops.append(["merge", [[rng.choice(pool), rng.sample(pool, rng.randint(1, 2))] for _ in range(rng.randint(1, 3))]])
         out.append({"k": "tracking", "ops": ops})
     # dangling detection names
-    for _ in range(40 if not big else 600):
+    for _ in range(40 if not big else 300):
         dets = rng.sample(["d1", "d2", "u1", "u2", "u10", "Zz", "sel", "flt", "éx"], rng.randint(1, 7))
         ascii_dets = [d for d in dets if d.isascii()] or ["d1"]
         dets = dets if "d1" in dets or ascii_dets != ["d1"] else dets + ["d1"]
@@ -119,7 +119,7 @@ def gen_sites(tier, rng):
     hostile_pats = ["_*", "_*a", "_c*", "_f*b", "_cond_*", "_filt_*s1", "_*_s1", "_*e"]
     f_names = ["s1", "s2", "t1", "sel"]
     f_pats = ["s*", "them", "*", "*1", "t*"]
-    for i in range(160 if not big else 5000):
+    for i in range(130 if not big else 2000):
         names = rng.sample(rule_names, rng.randint(1, 4))
         hostile = rng.random() < 0.2
         pats = rule_pats + (hostile_pats if hostile else [])
